@@ -56,7 +56,7 @@ static HOOK: std::sync::Once = std::sync::Once::new();
 
 /// Silent panic hook that remembers where the last panic happened (file:line + message), so a
 /// monitored request can answer `PANIC <where> <what>` and findings can be classified by root cause.
-fn install_hook() {
+pub fn install_hook() {
     HOOK.call_once(|| {
         std::panic::set_hook(Box::new(|info| {
             let loc = info.location().map(|l| {
@@ -79,7 +79,7 @@ fn install_hook() {
     });
 }
 
-fn last_panic() -> String {
+pub fn last_panic() -> String {
     LAST_PANIC.lock().map(|g| g.clone()).unwrap_or_default()
 }
 
@@ -214,13 +214,14 @@ pub fn run_child(mut cmd: std::process::Command, stdin: &[u8], secs: u64) -> Res
     let mut so = ch.stdout.take().unwrap();
     let rd = std::thread::spawn(move || {
         let mut buf = Vec::new();
-        // keep at most 1 MiB of output, drain the rest
+        // keep at most 16 MiB of output (a child echoes its request line, which can be several MB),
+        // drain the rest
         let mut chunk = [0u8; 65536];
         loop {
             match so.read(&mut chunk) {
                 Ok(0) | Err(_) => break,
                 Ok(n) => {
-                    if buf.len() < (1 << 20) {
+                    if buf.len() < (16 << 20) {
                         buf.extend_from_slice(&chunk[..n]);
                     }
                 }
@@ -709,17 +710,21 @@ fn json_walk(h: &mut Fnv, text: &[u8], root: JsonCursor<'_, Vec<u64>>) {
             h.num(c.line() as u64);
             h.num(c.column() as u64);
         }
-        if let Some((a, b)) = c.text_range() {
-            h.num(a as u64);
-            h.num(b as u64);
-            if visited <= 2000 || b - a < 256 {
-                h.bytes(&text[a..b]);
+        // `text_range` / `raw_bytes` scan the whole value (O(size) by design): on every node of a
+        // 10^5-deep nest that is quadratic, so beyond the first 2000 nodes only every 97th is scanned
+        if visited <= 2000 || visited % 97 == 0 {
+            if let Some((a, b)) = c.text_range() {
+                h.num(a as u64);
+                h.num(b as u64);
+                if visited <= 2000 || b - a < 256 {
+                    h.bytes(&text[a..b]);
+                }
             }
-        }
-        match c.raw_bytes() {
-            Some(b) if visited <= 2000 || b.len() < 256 => h.bytes(b),
-            Some(b) => h.num(b.len() as u64),
-            None => h.num(0),
+            match c.raw_bytes() {
+                Some(b) if visited <= 2000 || b.len() < 256 => h.bytes(b),
+                Some(b) => h.num(b.len() as u64),
+                None => h.num(0),
+            }
         }
         h.num(c.parent().map(|p| p.bp_position() as u64 + 1).unwrap_or(0));
         if let Some(p) = tp {
@@ -1674,6 +1679,13 @@ pub fn gen(tier: Tier, r: &mut Rng, emit: &mut dyn FnMut(String)) {
     for _ in 0..scale(3000, 60_000) {
         let p = crate::c30::program_soup(r);
         emit(format!("C19 jqp {}", hex_bytes(p.as_bytes())));
+    }
+    // truncated escapes followed by end of input / multi-byte characters, in every string context
+    let esc = crate::c30::escape_programs();
+    for (i, p) in esc.iter().enumerate() {
+        if !q || i % 2 == 1 {
+            emit(format!("C19 jqp {}", hex_bytes(p.as_bytes())));
+        }
     }
     for i in 0..scale(8, 200) {
         let p = crate::c30::program_soup(r);
